@@ -5,7 +5,7 @@
 EXTENDS Recv, Json, IOUtils, TLCExt
 Cases == JsonDeserialize(IOEnv.TRACE_FILE)
 VARIABLES cid, done
-Offset(m) == CASE m = "meth" -> 1 [] m = "other" -> 2 [] m = "deco" -> 3 [] m = "tree" -> 5 [] OTHER -> 0
+Offset(m) == CASE m = "meth" -> 1 [] m = "other" -> 2 [] m = "deco" -> 3 [] m = "deco2" -> 7 [] m = "tree" -> 5 [] m = "glob" -> 6 [] OTHER -> 0
 ExpectedV(c, i) == IF c.method = "prop" THEN -2 ELSE 10 + (i - 1) + Offset(c.method)
 EventsOfCall(c, i) == SelectSeq(c.events, LAMBDA e : e.call = i)
 \* instances strictly below o in the tree, i.e. reached by the recursive calls of o.tree
